@@ -36,6 +36,8 @@ def landscape(seed, ndim, size, offset_kind):
 
 def one_pair(task):
     name, seed, ndim, size, offset_kind, n_iter, cfg = task
+    cfg = dict(cfg)
+    scale = cfg.pop("__scale", 1.0)       # the objective handed to the optimizer is scale * f: direction must not depend on the unit of the score
     import gradient_free_optimizers as gfo
     opt_pt, off = landscape(seed, ndim, size, offset_kind)
     space = {"x%d" % i: np.arange(size) for i in range(ndim)}
@@ -46,7 +48,7 @@ def one_pair(task):
     res = {}
     for sign in (1, -1):
         def obj(para, sign=sign):
-            return sign * f(para)
+            return sign * scale * f(para)
         try:
             o = getattr(gfo, name)(space, random_state=seed, **cfg)
             with contextlib.redirect_stdout(io.StringIO()), contextlib.redirect_stderr(io.StringIO()):
@@ -67,7 +69,7 @@ def run(ctx):
                         "ranges); for each seed the mean f-value of the second half of the run maximising f must exceed that of the "
                         "run maximising -f; the optimizer passes if this holds for at least 3/4 of the seeds; random and grid search "
                         "must evaluate identical points in both runs; non-default settings that keep the optimizer directed (Powell iters_p_dim 1 / 3, "
-                        "pattern sizes, simplex coefficients, swarm / evolution parameters) are tested as separate groups; distinct by (optimizer, seed, range)")
+                        "pattern sizes, simplex coefficients, swarm / evolution parameters) and the same landscapes with the score multiplied by 1e-12 / 1e6 are tested as separate groups; distinct by (optimizer, seed, range)")
     import multiprocessing as mp
     seeds = list(range(1, 7)) if ctx.quick else list(range(1, 13))
     tasks = []
@@ -88,6 +90,10 @@ def run(ctx):
                 if alt.get("iters_p_dim", 9) < 5 and ndim == 1:
                     continue        # one dimension and fewer than 5 iterations per direction: only the inner start points are ever evaluated (score-blind by construction)
                 tasks.append((name, sd + 1000 * (ctx.seed % 7), ndim, size, kind, n_iter, dict(alt)))
+            # the same landscapes in other units: scores of the order 1e-10 and 1e+9 (first four seeds)
+            if i < 4 and name not in BLIND:
+                for sc_ in (1e-12, 1e6):
+                    tasks.append((name, sd + 1000 * (ctx.seed % 7), ndim, size, kind, n_iter, {"__scale": sc_}))
             # model-based optimizers also with candidate sub-sampling switched on (sampling={"random": k} below the space size):
             # the proposal then goes through the per-iteration candidate subset
             if name in gen.SMBO and name != "LipschitzOptimizer":
